@@ -104,3 +104,31 @@ Theorem position_index_code_refines_model :
       (0 < dict_val cands (Z.of_nat c) <-> exists v, pos_cand p (nth c ordered []) Y = Some v /\ 0 < v).
 Proof. exact position_candidate_positive. Qed.
 Print Assumptions position_index_code_refines_model.
+
+(* tie of the per-chunk join loop to the source: join/set_sim_join.py, as REGENERATED on this run
+   (Gen/JoinGen.v: attribute indices, token ordering, PositionIndex.build, PositionFilter.
+   find_candidates, the allow_empty branch, verification round(sim,4) against comp_op, output rows,
+   header), returns -- up to the order of rows -- exactly the triples of the hand model
+   set_sim_join_core mapped through the declarative projection (Spec/ProjSpec.v), and the
+   documented header.  The statement is that of JoinRefineProj.set_sim_join_rows_refines_proj
+   (printed by the Check below); its hypotheses on the formulas are discharged for
+   JACCARD/COSINE/DICE over all doubles in the envelope by IndexGlueArith (next theorems). *)
+From SSJ Require Import JoinGen JoinGenFacts JoinGenLoop JoinRefine JoinRefineProj IndexGlue IndexGlueArith.
+Theorem generated_join_loop_refines_model :
+  ltac:(let t := type of set_sim_join_rows_refines_proj in exact t).
+Proof. exact set_sim_join_rows_refines_proj. Qed.
+Check generated_join_loop_refines_model.
+Print Assumptions generated_join_loop_refines_model.
+Theorem generated_candidates_end_to_end_jcd :
+  ltac:(let t := type of position_candidates_jcd in exact t).
+Proof. exact position_candidates_jcd. Qed.
+Check generated_candidates_end_to_end_jcd.
+Theorem generated_pair_verdict_end_to_end_jcd :
+  ltac:(let t := type of ssj_pair_jcd in exact t).
+Proof. exact ssj_pair_jcd. Qed.
+Check generated_pair_verdict_end_to_end_jcd.
+Print Assumptions generated_pair_verdict_end_to_end_jcd.
+Theorem generated_formulas_total_jcd :
+  forall m t q, is_jcd m = true -> env_t t = true ->
+  formulas_ok {| fm := m; ft := PFloat t; fq := q |} size_bound.
+Proof. exact formulas_ok_jcd. Qed.
